@@ -403,7 +403,10 @@ def part_other_handlers(ctx):
         w, h = ctx.rng.choice([1, 2, 17, 64, 256, 257, 301, 512, 1000]), ctx.rng.choice([1, 3, 48, 256, 257, 400, 800])
         fmt = ctx.rng.choice(['image/png', 'image/jpeg', 'image/gif'])
         cls = ctx.rng.choice([WMSImageExceptionHandler, WMSBlankExceptionHandler])
-        params = {'width': str(w), 'height': str(h), 'format': fmt, 'layers': 'x', 'styles': '', 'bbox': '0,0,1,1',
+        # sizes as clients write them: GetMap accepts decimal notation and truncates (int(float(..)))
+        def num(v):
+            return ctx.rng.choice([str(v), str(v), '%d.0' % v, '%d.00' % v, '%d.7' % v, ' %d' % v, '%de0' % v, '+%d' % v])
+        params = {'width': num(w), 'height': num(h), 'format': fmt, 'layers': 'x', 'styles': '', 'bbox': '0,0,1,1',
                   'exceptions': 'inimage' if cls is WMSImageExceptionHandler else 'blank'}
         if ctx.rng.random() < 0.5:
             params['transparent'] = ctx.rng.choice(['true', 'TRUE', 'false', 'x'])
@@ -460,6 +463,9 @@ layers:
   - name: cached
     title: Cached Layer
     sources: [c1]
+  - name: big
+    title: Layer with 512 pixel tiles
+    sources: [c2]
   - name: direct
     title: Direct Layer
     sources: [up]
@@ -467,6 +473,13 @@ caches:
   c1:
     grids: [GLOBAL_MERCATOR]
     sources: [up]
+  c2:
+    grids: [big512]
+    sources: [up]
+grids:
+  big512:
+    base: GLOBAL_MERCATOR
+    tile_size: [512, 512]
 sources:
   up:
     type: wms
@@ -479,9 +492,9 @@ sources:
 '''
 
 UP = {'mode': 'ok'}
-HOSTILE = ['<c18m>', '"><c18m x="', "'><c18m x='", '</script><c18m>', '&', '&amp;', '&lt;c18m&gt;', '<', '>', '"', "'", '\\',
+HOSTILE = ['<c18m>', '\xe4', 'l\xe4yer', '\xff', '\xc3(', '"><c18m x="', "'><c18m x='", '</script><c18m>', '&', '&amp;', '&lt;c18m&gt;', '<', '>', '"', "'", '\\',
            '%', '%zz', '%00', '\x00', '\x01', '\x7f', '\t', '\r\n', '\n', ' ', '', 'é', '☃', '\U0001f600', '\xff\xfe',
-           '../../../etc/passwd', '{{exception}}', '-1', '0', '300', '1024', '2000', '1e400', 'nan', 'inf', '-inf', '99999999999999999999', '1.5', 'abc',
+           '../../../etc/passwd', '{{exception}}', '-1', '0', '300', '1024', '2000', '300.0', '150.00', '64.5', '2e2', '1e400', 'nan', 'inf', '-inf', '99999999999999999999', '1.5', 'abc',
            ',', ',,,,', '0,0,0,0', '1,2', 'EPSG:0', 'EPSG:', 'EPSG:99999999999', 'image/', 'image/foo', 'text/html', 'png',
            'A' * 300, 'true', 'TRUE', 'inimage', 'blank', 'xml', 'application/vnd.ogc.se_inimage', 'application/vnd.ogc.se_blank',
            '0x', '0xzzzzzz', '#ffffff', '2009-13-45', 'default', 'cached,cached', 'cached,<c18m>', 'direct']
@@ -598,6 +611,24 @@ def base_requests():
     out.append(('tms.layercap', '/tms/1.0.0/cached/EPSG900913', []))
     out.append(('tms.root', '/tms', []))
     out.append(('tiles.tile', '/tiles/cached/EPSG900913/1/0/1.png', [('origin', 'nw')]))
+    # the layer with 512 pixel tiles, every tile service
+    out.append(('tms.tile.big', '/tms/1.0.0/big/EPSG900913/1/0/1.png', []))
+    out.append(('tiles.tile.big', '/tiles/big/EPSG900913/1/0/1.png', []))
+    out.append(('kml.tile.big', '/kml/big/EPSG900913/1/0/1.png', []))
+    out.append(('wmts.rest.tile.big', '/wmts/big/big512/1/0/1.png', []))
+    out.append(('wmts.kvp.tile.big', '/service', [('service', 'WMTS'), ('request', 'GetTile'), ('version', '1.0.0'), ('layer', 'big'),
+                                                  ('style', ''), ('tilematrixset', 'big512'), ('tilematrix', '1'), ('tilerow', '0'),
+                                                  ('tilecol', '1'), ('format', 'image/png')]))
+    # decimal sizes (accepted by GetMap: int(float(..))): the answer and the in-image / blank exception must have that size
+    out.append(('wms111.map.decimal', '/service', kv(WMS_MAP, width='300.0', height='150.0')))
+    out.append(('wms130.map.decimal', '/service', kv(WMS_MAP, version='1.3.0', srs=None, crs='EPSG:3857', bbox='0,0,1000000,1000000',
+                                                     width='64.9', height='48.2')))
+    out.append(('wms111.map.inimage.decimal', '/service', kv(WMS_MAP, layers='nolayer', exceptions='application/vnd.ogc.se_inimage',
+                                                             width='300.0', height='150.0')))
+    out.append(('wms111.map.blank.decimal', '/service', kv(WMS_MAP, layers='nolayer', exceptions='application/vnd.ogc.se_blank',
+                                                           width='300.0', height='150.00')))
+    out.append(('wms130.map.inimage.decimal', '/service', kv(WMS_MAP, version='1.3.0', srs=None, crs='EPSG:4326', layers='nolayer',
+                                                             exceptions='INIMAGE', width='3e2', height='64.5')))
     out.append(('kml.root', '/kml/cached/EPSG900913/0/0/0.kml', []))
     out.append(('kml.tile', '/kml/cached/EPSG900913/1/0/1.png', []))
     out.append(('root', '/', []))
@@ -631,6 +662,27 @@ def fresh(path, pairs, i):
             v = '%d,%d,%d,%d' % (-170 + 20 * x, -80 + 9 * y, -150 + 20 * x, -65 + 9 * y)
         out.append((k, v))
     return path, out
+
+
+class RawPath(str):
+    """a PATH_INFO that is handed to the application verbatim (latin-1 text of arbitrary bytes)"""
+
+
+def wsgi_path(path, raw_latin1):
+    """PEP 3333: PATH_INFO is the percent-decoded request path, bytes decoded as latin-1.  Characters above U+00FF can only
+    arrive as UTF-8 bytes; characters U+0080..U+00FF arrive either as UTF-8 or (raw_latin1: a client that percent-encodes latin-1,
+    or arbitrary bytes) as the single byte - which is in general NOT valid UTF-8."""
+    if isinstance(path, RawPath):
+        return str(path)
+    out = []
+    for c in path:
+        if c in '\r\n':
+            continue
+        if raw_latin1 and 0x80 <= ord(c) <= 0xff:
+            out.append(c)
+        else:
+            out.append(c.encode('utf-8', 'replace').decode('latin-1'))
+    return ''.join(out)
 
 
 def enc_query(pairs, rng, raw_prob=0.0):
@@ -719,6 +771,14 @@ def call_app(app, path, qs, headers):
            'wsgi.version': (1, 0), 'wsgi.multithread': False, 'wsgi.multiprocess': False, 'wsgi.run_once': False,
            'SCRIPT_NAME': '', 'HTTP_HOST': 'localhost'}
     env.update(headers)
+    if env.pop('mapproxy.authorize', None) == 'limited':
+        # authorization callback: everything is allowed, but only inside a small area (tiles outside are answered empty)
+        def authorize(service, layers=(), environ=None, **kw):
+            lim = {'geometry': [0, 0, 10, 10], 'srs': 'EPSG:4326'}
+            return {'authorized': 'partial',
+                    'layers': dict((name, {'tile': True, 'map': True, 'featureinfo': True, 'legendgraphic': True, 'limited_to': lim})
+                                   for name in layers)}
+        env['mapproxy.authorize'] = authorize
     st = {'calls': 0}
 
     def start_response(status, hdrs, exc_info=None):
@@ -817,8 +877,9 @@ def oracle_response(ctx, name, res, rep, req_size, base, skeletons, appdocs):
                 ctx.fail(sig + 'image-type', 'declared %r but the body is %s' % (ct, fmt), rep)
             elif req_size is not None and code == 200 and im.size != req_size:
                 ctx.fail(sig + 'image-size', 'requested %r, got %r' % (req_size, im.size), rep)
-            elif req_size is None and ('tile' in name) and im.size != (256, 256):
-                ctx.fail(sig + 'image-size', 'tile of size %r' % (im.size,), rep)
+            elif req_size is None and ('tile' in name) and im.size != ((512, 512) if name.endswith('.big') else (256, 256)):
+                ctx.fail(sig + 'image-size', 'tile of size %r, the layer has %s pixel tiles' % (im.size, '512' if name.endswith('.big') else '256'),
+                         rep)
         except Exception as e:  # noqa
             ctx.fail(sig + 'image-undecodable', 'body declared %r does not decode: %s' % (ct, str(e)[:100]), rep)
         return kind
@@ -959,6 +1020,28 @@ def part_app(ctx, skeletons):
             k += 1
             p2, q2 = fresh(path, pairs, k)
             stream.append((name, p2, q2, {}, None, 'valid', up))
+    # sequences within this one application instance: a tile outside / at the border of the authorized area, for the layer with
+    # 256 pixel tiles and then for the layer with 512 pixel tiles (and the other way round), every tile service
+    authz = {'mapproxy.authorize': 'limited'}
+    by_name = dict((n, (pth, prs)) for n, pth, prs in bases)
+    for svc in ('tms.tile', 'wmts.rest.tile', 'wmts.kvp.tile', 'tiles.tile', 'kml.tile'):
+        for order in ((svc, svc + '.big'), (svc + '.big', svc)):
+            for i in (17, 8 * 16 + 8):             # fresh(): tile 4/1/1 (outside the area), tile 4/8/8 (intersects it)
+                for nm in order:
+                    pth, prs = fresh(by_name[nm][0], by_name[nm][1], i)
+                    stream.append((nm, pth, prs, dict(authz), None, 'valid', 'ok'))
+    for nm in ('wms111.map', 'wms130.map', 'wms111.map.decimal', 'wms111.fi', 'kml.root', 'tms.cap', 'wmts.kvp.cap', 'demo.index'):
+        stream.append((nm, by_name[nm][0], by_name[nm][1], dict(authz), None, 'valid', 'ok'))
+    # PATH_INFO as a real WSGI server delivers it (PEP 3333: the percent-decoded bytes as latin-1 text): byte sequences that
+    # are not valid UTF-8, for every service prefix
+    for rawp in ('/\xff', '/\xe4', '/service\xff', '/service/\xe4', '/ows/\xfe\xff', '/wms\xc3', '/tms/1.0.0/l\xe4yer/0/0/0.png',
+                 '/tms/1.0.0/cached/EPSG900913/1/0/1.png\xff', '/tms/\xe4', '/tms/1.0.0/\xc3\x28', '/tiles/l\xe4yer/0/0/0.png',
+                 '/tiles/\xff/EPSG900913/1/0/1.png', '/kml/l\xe4yer/EPSG900913/0/0/0.kml', '/kml/cached/\xe4/0/0/0.kml',
+                 '/wmts/l\xe4yer/GLOBAL_MERCATOR/1/0/1.png', '/wmts/cached/\xa0\xa1/1/0/1.png', '/wmts/1.0.0/\xffWMTSCapabilities.xml',
+                 '/demo/\xe4', '/demo/static/\xff.css', '/demo\xe4/', '/\xe4\xf6\xfc/\xdf', '/nothing/\x80'):
+        stream.append(('rawpath.' + (rawp.split('/')[1][:8] or 'root'), RawPath(rawp), [], {}, None, 'non-UTF-8 path bytes', 'ok'))
+        stream.append(('rawpath.' + (rawp.split('/')[1][:8] or 'root'), RawPath(rawp), [('service', 'WMS'), ('request', 'GetCapabilities')], {}, None,
+                       'non-UTF-8 path bytes', 'ok'))
     # demo pages: every parameter of every page with hostile values (with and without `/`, quotes, script end tags)
     demo_hostile = ['"><c18m x="', "'><c18m x='", '</script><c18m>', 'image/png"><c18m x="', "image/png'><c18m x='",
                     'image/</script><c18m>', 'a/b<c18m>', 'EPSG:4326"><c18m x="', 'EPSG:900913</script><c18m>', '<c18m>',
@@ -994,11 +1077,12 @@ def part_app(ctx, skeletons):
             path, pairs = fresh(path, pairs, ctx.rng.randrange(256))
         p2, q2, h2, raw, what = mutate(ctx.rng, name, path, pairs)
         up = ctx.rng.choice(['ok', 'ok', 'ok', 'ok', 'error', 'garbage', 'oserror'])
+        if ctx.rng.random() < 0.12:
+            h2 = dict(h2, **{'mapproxy.authorize': 'limited'})
         stream.append((name, p2, q2, h2, raw, what, up))
     for name, path, pairs, headers, raw, what, up in stream:
         qs = raw if raw is not None else enc_query(pairs, ctx.rng, raw_prob=0.15 if what != 'valid' else 0.0)
-        # PEP 3333: PATH_INFO is the percent-decoded path as latin-1 text; characters above U+00FF travel as UTF-8 bytes
-        wpath = ''.join(c for c in path if c not in '\r\n').encode('utf-8', 'replace').decode('latin-1')
+        wpath = wsgi_path(path, what != 'valid' and ctx.rng.random() < 0.5)
         UP['mode'] = up
         res = call_app(app, wpath, qs, headers)
         rep = {'service': name, 'PATH_INFO': wpath, 'QUERY_STRING': qs, 'headers': headers, 'upstream': up, 'mutation': what,
